@@ -523,19 +523,20 @@ impl<'a> MetricBuilderContext<'a> {
                 ) -> #delegator_name {
                     let x = unsafe { MaybeUninit::<#member_type>::uninit().assume_init() };
                     let branch_offset = (&x as *const #member_type) as usize;
-                    #(
-                      let #delegator_field_names = #delegator_member::new(
-                      root,
-                      #known_offsets_tokens
-                      &(x.#delegator_field_names) as *const #next_member_type as usize - branch_offset,
-                      );
-                    )*
-                    mem::forget(x);
-                    #delegator_name {
+                    // Initialise the fields in place: binding them to locals first
+                    // would let a label value named like one of the names used here
+                    // (`x`, `root`, `branch_offset`, `offsetN`) shadow it.
+                    let delegator = #delegator_name {
                         #(
-                         #delegator_field_names,
+                          #delegator_field_names: #delegator_member::new(
+                          root,
+                          #known_offsets_tokens
+                          &(x.#delegator_field_names) as *const #next_member_type as usize - branch_offset,
+                          ),
                         )*
-                    }
+                    };
+                    mem::forget(x);
+                    delegator
                 }
             }
         }
@@ -556,20 +557,18 @@ impl<'a> MetricBuilderContext<'a> {
                 let x = unsafe { MaybeUninit::<#inner_struct_name>::uninit().assume_init() };
                 let branch_offset = &x as *const #inner_struct_name as usize;
 
-                #(
-                  let #field_names = #delegator_name::new(
-                  &inner,
-                  &(x.#field_names) as *const #inner_member_type as usize - branch_offset,
-                  );
-                )*
+                // See `new` above: no locals named after label values.
+                let outer = #outer_struct_name {
+                 inner,
+                 #(
+                    #field_names: #delegator_name::new(
+                    &inner,
+                    &(x.#field_names) as *const #inner_member_type as usize - branch_offset,
+                    ),
+                 )*
+                };
                 mem::forget(x);
-
-            #outer_struct_name {
-             inner,
-             #(
-                #field_names,
-             )*
-            }
+                outer
            }
         }
     }
